@@ -146,6 +146,7 @@ def _write_shard(suite: Suite, path: str, pairs):
         f.write("From Coq Require Import List NArith ZArith Bool.\nImport ListNotations.\n")
         f.write("From RV Require Import Base.Check.\n")
         f.write(suite.imports + "\n")
+        f.write("Set Printing Width 1000000.\n")
         f.write(f"Definition cases : list (({suite.case_ty}) * ({suite.obs_ty})) := [\n")
         f.write(";\n".join(f"({suite.coq_case(c)}, {suite.coq_obs(o)})" for c, o in pairs))
         f.write("\n].\n")
@@ -154,7 +155,7 @@ def _write_shard(suite: Suite, path: str, pairs):
         )
 
 
-_RES = re.compile(r"\((\d+)%N,\s*(\d+)%N\)")
+_RES = re.compile(r"\(\s*(\d+)(?:%N)?\s*,\s*(\d+)(?:%N)?\s*\)")
 _CNT = re.compile(r",\s*(\d+)%N\)\s*:\s*list", re.S)
 
 
@@ -190,7 +191,7 @@ def eval_pairs(suite: Suite, pairs, tag: str, jobs=16):
         if rc != 0:
             raise RuntimeError(f"coqc failed on {path}:\n{err[-2000:]}")
         flat = " ".join(out.split())
-        m = re.search(r"=\s*\((.*),\s*(\d+)%N\)\s*:\s*list", flat)
+        m = re.search(r"=\s*\((.*),\s*(\d+)(?:%N)?\s*\)\s*:\s*list", flat)
         if not m:
             raise RuntimeError(f"cannot read coqc output for {path}: {flat[:500]}")
         res = [(int(a), int(b)) for a, b in _RES.findall(m.group(1))]
